@@ -17,9 +17,9 @@ Inductive case :=
       (* on-chain Conflicts backed by any signer: transaction T (hash 1, signers tsigners, sender first) is offered
          in the block at height cur+1; block a carries a transaction signed by asigners that names T in its
          Conflicts attribute; pooled: T sat in the mempool when block a was stored, kept: and survived the refresh;
-         fresh_ok: a node that never pooled T admits it at height cur *)
+         fresh_ok: a node that never pooled T lets_in it at height cur *)
       (* stale-pool family: T pooled (or not) at H, block H+1 without it, block H+2 carrying it offered;
-         kept = T still in the mempool after H+1; fresh_ok = a node that never pooled T admits it at H+1 *)
+         kept = T still in the mempool after H+1; fresh_ok = a node that never pooled T lets_in it at H+1 *)
 
 (* which variant of the code answers like this?  F23/F24 repaired or not is read off the verdict itself:
    the case agrees with the mechanism model if it agrees with one of the variants; the specification is
@@ -61,7 +61,7 @@ Definition check_case (c : case) : N :=
       let valid := fun (_ t : N) => if t =? 7 then fresh_ok else true in
       let pool := if kept then [7] else [] in
       let mech := Bool.eqb accepted (block_ok valid verify 2 pool [7]) && (implb kept pooled) in
-      (* specification: the refresh keeps only what a fresh verification admits; acceptance = validity now *)
+      (* specification: the refresh keeps only what a fresh verification lets_in; acceptance = validity now *)
       let spec := implb kept fresh_ok && implb (verify && accepted) fresh_ok && implb fresh_ok accepted in
       if spec then code_of mech true else 2
   | CConfl mtb a cur asigners tsigners pooled kept fresh_ok accepted =>
@@ -71,7 +71,7 @@ Definition check_case (c : case) : N :=
       let hit := signer_conflict es cur mtb t in
       let hit_at_a := signer_conflict es a mtb t in
       (* mechanism: the record table asked with all signers (the code); pooled transactions are taken as verified *)
-      let table := negb (tx_admitted true mtb es cur t) in
+      let table := negb (tx_accepted true mtb es cur t) in
       let mech := Bool.eqb table hit && Bool.eqb fresh_ok (negb table) && implb kept pooled &&
                   Bool.eqb accepted (kept || negb table) in
       let spec := Bool.eqb accepted (negb hit) && implb kept (negb hit_at_a) in
